@@ -49,149 +49,58 @@ def when(self, snapshot):
     return False
 '''
 
-INITS = {
-    "AtTimeTrigger": ("_time", "to_minute(time)"),
-    "AtTimesTrigger": ("_time", "[to_minute(t) for t in time]"),
-    "TimeRangeTrigger": ("_time_range", "TimeRange(to_minute(time_range.start), to_minute(time_range.end))"),
-    "TimeRangesTrigger": ("_time_range", "[TimeRange(to_minute(t.start), to_minute(t.end)) for t in time_range]"),
+REF_PERIODS_WHEN = '''
+def when(self, snapshot):
+    if self._next_matches[0] is None:
+        self._next_matches = [snapshot.timestamp + d + self._pending for d in self._deltas]
+        return self._trigger_immediately
+    hit = False
+    for i in range(len(self._deltas)):
+        if self._next_matches[i] == snapshot.timestamp:
+            self._next_matches[i] = self._next_matches[i] + self._deltas[i]
+            hit = True
+    return hit
+'''
+
+INIT_REFS = {
+    "AtTimeTrigger": "def __init__(self, time, do, **kwargs):\n    self._time = to_minute(time)\n",
+    "AtTimesTrigger": "def __init__(self, time, do, **kwargs):\n    self._time = [to_minute(t) for t in time]\n",
+    "TimeRangeTrigger": "def __init__(self, time_range, do, **kwargs):\n"
+                        "    self._time_range = TimeRange(to_minute(time_range.start), to_minute(time_range.end))\n",
+    "TimeRangesTrigger": "def __init__(self, time_range, do, **kwargs):\n"
+                         "    self._time_range = [TimeRange(to_minute(t.start), to_minute(t.end)) for t in time_range]\n",
 }
-
-
-def periods_shape(model, res):
-    f = model.func("PeriodsTrigger.when")
-    body = [s for s in f.node.body if not (isinstance(s, ast.Expr) and isinstance(s.value, ast.Constant))]
-    problems = []
-    # first call arms every period with delay
-    first = body[0] if body else None
-    arm_ok = False
-    if isinstance(first, ast.If) and ast.unparse(first.test) == "self._next_matches[0] is None" and len(first.body) == 2:
-        a, r = first.body
-        arm_ok = (isinstance(a, ast.Assign) and ast.unparse(a.targets[0]) == "self._next_matches"
-                  and isinstance(a.value, ast.ListComp) and ast.unparse(a.value.generators[0].iter) == "self._deltas"
-                  and not a.value.generators[0].ifs
-                  and sorted(ast.unparse(a.value.elt).replace(" ", "").split("+")) == sorted(
-                      ["snapshot.timestamp", a.value.generators[0].target.id, "self._pending"])
-                  and isinstance(r, ast.Return) and ast.unparse(r.value) == "self._trigger_immediately")
-    res.ob("R-SHAPE", "first call arms every period at ts + period + delay and returns the immediate flag", f.loc(first or f.node), ok=arm_ok)
-    if not arm_ok:
-        problems.append((first or f.node, "first-call arming is not `[ts + d + pending for d in deltas]` / `return trigger_immediately`"))
-    loops = [s for s in body if isinstance(s, ast.For)]
-    if len(loops) != 1:
-        raise AnalysisError("C18: PeriodsTrigger.when: per-period loop not found")
-    lp = loops[0]
-    idx = lp.target.id if isinstance(lp.target, ast.Name) else None
-    iter_ok = ast.unparse(lp.iter) in ("range(len(self._deltas))", "range(len(self._next_matches))")
-    exits = [n for n in ast.walk(lp) if isinstance(n, (ast.Return, ast.Break))]
-    res.ob("R-LOOPEXIT", "the per-period loop has no return/break (periods are independent)", f.loc(lp), ok=not exits and iter_ok)
-    if exits:
-        problems.append((exits[0], "the per-period loop leaves at the first due period (return/break); another period due on the same "
-                                   "bar is not advanced and never fires again"))
-    if not iter_ok:
-        problems.append((lp, f"per-period loop iterates `{ast.unparse(lp.iter)}`"))
-    adv_ok = False
-    flag = None
-    for s in lp.body:
-        if isinstance(s, ast.If) and ast.unparse(s.test) in (f"self._next_matches[{idx}] == snapshot.timestamp",
-                                                              f"snapshot.timestamp == self._next_matches[{idx}]"):
-            for b in s.body:
-                txt = ast.unparse(b).replace(" ", "")
-                if txt in (f"self._next_matches[{idx}]=self._next_matches[{idx}]+self._deltas[{idx}]",
-                           f"self._next_matches[{idx}]+=self._deltas[{idx}]"):
-                    adv_ok = True
-                if isinstance(b, ast.Assign) and isinstance(b.targets[0], ast.Name) and isinstance(b.value, ast.Constant) \
-                        and b.value.value is True:
-                    flag = b.targets[0].id
-    res.ob("R-SHAPE", "a due period advances by exactly its own period", f.loc(lp), ok=adv_ok)
-    if not adv_ok:
-        problems.append((lp, "a due period is not advanced by its own period"))
-    ret = body[-1]
-    ret_ok = isinstance(ret, ast.Return) and flag is not None and ast.unparse(ret.value) == flag
-    init_ok = any(isinstance(s, ast.Assign) and isinstance(s.targets[0], ast.Name) and s.targets[0].id == flag
-                  and isinstance(s.value, ast.Constant) and s.value.value is False for s in body)
-    if not exits:
-        res.ob("R-SHAPE", "when() returns whether any period was due (flag starts False)", f.loc(ret), ok=ret_ok and init_ok)
-        if not (ret_ok and init_ok):
-            problems.append((ret, "the result is not the any-period-due flag"))
-    for node, msg in problems:
-        res.find("R-LOOPEXIT" if "loop" in msg else "R-SHAPE", f.qualname, msg, f.loc(node), f"PeriodsTrigger.when: {msg}")
 
 
 def do_and_init(model, res):
     base = model.cls("Trigger")
-    f = base.methods["do"]
-    rets = [n for n in ast.walk(f.node) if isinstance(n, ast.Return)]
-    ok = len(rets) == 1 and ast.unparse(rets[0].value) == "self._do(snapshot, **self.kwargs)" and \
-        sum(1 for n in ast.walk(f.node) if isinstance(n, ast.Call)) == 1
-    res.ob("R-SHAPE", "Trigger.do calls the action once with the snapshot and **kwargs", f.loc(), ok=ok)
-    if not ok:
-        res.find("R-SHAPE", "Trigger.do", "action is not called exactly once with **self.kwargs", f.loc(),
-                 f"Trigger.do is `{ast.unparse(f.node.body[-1])[:100]}`")
+    formula_check(res, model, "Trigger.do", "def do(self, snapshot):\n    return self._do(snapshot, **self.kwargs)\n",
+                  "the action is called once with the snapshot and the extra keyword arguments", rule="R-SHAPE")
     over = [c.name for c in model.subclasses("Trigger") if "do" in c.methods]
     res.ob("R-SHAPE", f"no trigger subclass overrides do ({len(model.subclasses('Trigger'))} subclasses)", base.module.relpath, ok=not over)
     for c in over:
         res.find("R-SHAPE", f"{c}.do", "subclass overrides do", base.module.relpath, f"{c} overrides Trigger.do")
     n = 0
-    for cname, (field, want) in INITS.items():
+    for cname, ref in INIT_REFS.items():
         init = model.cls(cname).methods.get("__init__")
         if init is None:
             raise AnalysisError(f"C18: {cname}.__init__ not found")
-        got = None
-        for s in ast.walk(init.node):
-            if isinstance(s, (ast.Assign, ast.AnnAssign)):
-                tg = s.targets[0] if isinstance(s, ast.Assign) else s.target
-                if ast.unparse(tg) == f"self.{field}":
-                    got = ast.unparse(s.value)
+        effects_check(res, model, init, ref, f"{cname} stores its specification truncated to the minute", [], opaque=["to_minute"],
+                      rule="R-SHAPE", store_fields=["_time", "_time_range"])
         n += 1
-        good = got is not None and got.replace(" ", "") == want.replace(" ", "")
-        res.ob("R-SHAPE", f"{cname} normalises its times to the minute", init.loc(), ok=good, detail=str(got))
-        if not good:
-            res.find("R-SHAPE", f"{cname}.__init__", f"self.{field} = {got}", init.loc(),
-                     f"{cname} stores `{got}`; the specification times must be truncated to the minute ({want})")
     return n
 
 
 def loop_phase(model, res):
-    f = model.func("Actuator.run")
-    fire = None
-    retire = None
-    for n in ast.walk(f.node):
-        if isinstance(n, ast.For) and isinstance(n.target, ast.Name):
-            calls = [ast.unparse(c.func) for c in ast.walk(n) if isinstance(c, ast.Call)]
-            if f"{n.target.id}.when" in calls and f"{n.target.id}.do" in calls:
-                fire = n
-        if isinstance(n, ast.Assign) and ast.unparse(n.targets[0]) == "self._strategy.triggers":
-            retire = n
-    if fire is None or retire is None:
-        raise AnalysisError("C18: trigger evaluation / retirement not found in Actuator.run")
-    live = ast.unparse(fire.iter) == "self._strategy.triggers"
-    res.ob("R-PHASE", "triggers are evaluated over the strategy's live list", f.loc(fire), ok=live, detail=ast.unparse(fire.iter))
-    if not live:
-        res.find("R-PHASE", "Actuator.run", f"triggers evaluated over `{ast.unparse(fire.iter)}`", f.loc(fire),
-                 f"the bar loop iterates `{ast.unparse(fire.iter)}` instead of the live self._strategy.triggers; triggers registered "
-                 f"by a trigger action are not part of what is kept")
-    # when guards do
-    guard_ok = False
-    for s in fire.body:
-        if isinstance(s, ast.If) and ast.unparse(s.test) == f"{fire.target.id}.when(snapshot)":
-            guard_ok = any(isinstance(b, ast.Expr) and ast.unparse(b.value) == f"{fire.target.id}.do(snapshot)" for b in s.body) \
-                and len(s.body) == 1 and not s.orelse
-    res.ob("R-PHASE", "do(snapshot) is called exactly when when(snapshot) holds", f.loc(fire), ok=guard_ok)
-    if not guard_ok:
-        res.find("R-PHASE", "Actuator.run", "when/do pairing changed", f.loc(fire), "the trigger loop no longer calls do(snapshot) once iff when(snapshot)")
-    v = retire.value
-    ret_ok = isinstance(v, ast.ListComp) and ast.unparse(v.generators[0].iter) == "self._strategy.triggers" \
-        and len(v.generators[0].ifs) == 1 and ast.unparse(v.generators[0].ifs[0]) == f"not {v.generators[0].target.id}.is_out_date(self._currents.timestamp)" \
-        and ast.unparse(v.elt) == v.generators[0].target.id
-    res.ob("R-PHASE", "retirement keeps exactly the live triggers that are not out of date at the current bar", f.loc(retire), ok=ret_ok,
-           detail=ast.unparse(v)[:120])
-    if not ret_ok:
-        res.find("R-PHASE", "Actuator.run", f"retirement `{ast.unparse(retire)[:100]}`", f.loc(retire),
-                 "the retirement step must rebuild the list from the live self._strategy.triggers keeping those with "
-                 "`not is_out_date(current bar)`")
-    order_ok = fire.lineno < retire.lineno
-    res.ob("R-PHASE", "triggers fire before they are retired", f.loc(retire), ok=order_ok)
-    if not order_ok:
-        res.find("R-PHASE", "Actuator.run", "retirement precedes firing", f.loc(retire), "triggers are retired before they are evaluated in the bar")
+    # the trigger phases of the bar loop, as an ordered effect trace: evaluation over the live list (when guards do),
+    # then retirement from the live list with the current bar's time; everything else in the loop belongs to C05
+    from .C05 import ANCHORS, REF_RUN
+    keep = {"when", "do", "is_out_date"}
+    effects_check(res, model, "Actuator.run", REF_RUN,
+                  "bar loop: triggers fire (do iff when) from the strategy's live list, then the list is rebuilt from the live "
+                  "list keeping those not out of date at the current bar", ANCHORS,
+                  ignore_calls=[a for a in ANCHORS if a not in keep], ordered=True, opaque=["time"], rule="R-PHASE",
+                  store_fields=["triggers", "timestamp"])
 
 
 def run(model, tier="quick"):
@@ -201,10 +110,12 @@ def run(model, tier="quick"):
         formula_check(res, model, q, src, what, opaque=["to_minute"] if not q.endswith("to_minute") else [])
     effects_check(res, model, "PeriodTrigger.when", REF_PERIOD_WHEN,
                   "first call arms ts + period + delay and returns the immediate flag; a match advances by one period", [])
-    periods_shape(model, res)
+    effects_check(res, model, "PeriodsTrigger.when", REF_PERIODS_WHEN,
+                  "first call arms every period at ts + period + delay and returns the immediate flag; afterwards every due "
+                  "period advances by its own period (no early exit) and the result is whether any was due", [], rule="R-LOOPEXIT")
     res.floor("constructors", do_and_init(model, res), 4)
     loop_phase(model, res)
-    res.floor("obligations", len(res.obligations), 22)
+    res.floor("obligations", len(res.obligations), 20)
     res.assumptions = ["bars are minute-aligned datetimes (to_minute normalises the specification, not the bar)"]
     res.not_decided = ["periods that do not divide the bar interval (specification silent)", "PriceTrigger / CustomizedTrigger (user predicates)"]
     return res
